@@ -183,6 +183,8 @@ func runC01(c *vh.Ctx) {
 		}
 	}
 	_ = verifhooks.ErrKind
+	// direct oracle against the Cedar specification's floor semantics (c01_spec.go)
+	checkToDateToTime(c)
 }
 
 func classifyC01(d vh.Disagreement) string {
